@@ -297,7 +297,510 @@ def gen_it(rng):
     return out, "it"
 
 
+# --------------------------------------------------------------------------
+# deterministic witnesses for the voice-position invariant of the mixer (C01)
+# --------------------------------------------------------------------------
+
+def it_module(samples, rows, speed=6, tempo=125, nrows=64, flags=0x09, title=b"c01 witness"):
+    """IT file in sample mode.  samples: list of dicts n, c5spd, flg (IT sample flag byte without bit 0/1),
+    lps, lpe, sus, sue, b16.  rows: {row: [(channel 1.., note or None, ins or None, cmd or None, prm)]}."""
+    ln, nsmp, npat = 1, len(samples), 1
+    hdr = bytearray(b"IMPM" + title.ljust(26, b"\0") + b"\x04\x10")
+    hdr += struct.pack("<HHHH", ln, 0, nsmp, npat)
+    hdr += struct.pack("<HHHH", 0x0214, 0x0214, flags, 0)
+    hdr += bytes([128, 48, speed, tempo, 128, 0]) + struct.pack("<HII", 0, 0, 0)
+    hdr += bytes([32] * 64) + bytes([64] * 64)
+    off = 192 + ln + 4 * nsmp + 4 * npat
+    sptr = []
+    for _ in samples:
+        sptr.append(off)
+        off += 80
+    data = bytearray()
+    for r in range(nrows):
+        for (c, note, ins, cmd, prm) in rows.get(r, []):
+            mask = (1 if note is not None else 0) | (2 if ins is not None else 0) | (8 if cmd is not None else 0)
+            data += bytes([c | 0x80, mask])
+            if note is not None:
+                data.append(note)
+            if ins is not None:
+                data.append(ins)
+            if cmd is not None:
+                data += bytes([cmd, prm])
+        data += b"\0"
+    pb = struct.pack("<HHI", len(data), nrows, 0) + data
+    pptr = [off]
+    off += len(pb)
+    shdrs, sdata = [], []
+    for sm in samples:
+        n, b16 = sm["n"], sm.get("b16", False)
+        flg = 1 | (2 if b16 else 0) | sm.get("flg", 0)
+        sh = bytearray(b"IMPS" + b"sample.raw".ljust(12, b"\0") + b"\0" + bytes([64, flg, 64]))
+        sh += b"smp".ljust(26, b"\0") + bytes([1, 32])
+        sh += struct.pack("<IIII", n, sm.get("lps", 0), sm.get("lpe", 0), sm.get("c5spd", 8363))
+        sh += struct.pack("<III", sm.get("sus", 0), sm.get("sue", 0), off) + bytes([0, 0, 0, 0])
+        shdrs.append(bytes(sh).ljust(80, b"\0"))
+        d = sm["data"] if "data" in sm else bytes((i * 37) & 0xff for i in range(n * (2 if b16 else 1)))
+        sdata.append(d)
+        off += len(d)
+    return (bytes(hdr) + bytes([0]) + b"".join(struct.pack("<I", x) for x in sptr) + struct.pack("<I", pptr[0])
+            + b"".join(shdrs) + pb + b"".join(sdata))
+
+
+def mod_module(samples, rows, nrows=64, magic=b"M.K."):
+    """Protracker MOD.  samples: list of (data bytes, volume, loop start words, loop length words) (max 31);
+    rows: {row: [(channel 0..3, period, ins, fx, prm)]}."""
+    out = bytearray(b"c01 witness".ljust(20, b"\0"))
+    for i in range(31):
+        if i < len(samples):
+            d, vol, lps, lpl = samples[i]
+            out += b"smp".ljust(22, b"\0") + struct.pack(">HBBHH", len(d) // 2, 0, vol, lps, lpl)
+        else:
+            out += bytes(22) + struct.pack(">HBBHH", 0, 0, 0, 0, 1)
+    out += bytes([1, 0x7f]) + bytes(128) + magic
+    for r in range(nrows):
+        cells = {c: (per, ins, fx, prm) for (c, per, ins, fx, prm) in rows.get(r, [])}
+        for c in range(4):
+            per, ins, fx, prm = cells.get(c, (0, 0, 0, 0))
+            out += bytes([(ins & 0xf0) | (per >> 8), per & 0xff, ((ins & 0x0f) << 4) | fx, prm])
+    for d, _, _, _ in samples:
+        out += d
+    return bytes(out)
+
+
+def c01_witnesses(dirname):
+    """Deterministic modules that drive the mixer's position bookkeeping through its corner paths; returns
+    [(path, rate, interps)].  reverse-past-end.it is the witness of the defect fixed by
+    "clamp the voice position at the start of a tick" (one-shot sample ending exactly at a tick boundary, then S9F)."""
+    import os
+    os.makedirs(dirname, exist_ok=True)
+    S = 19          # IT effect letter 'S'
+    out = []
+
+    def put(name, data, rate):
+        p = os.path.join(dirname, name)
+        with open(p, "wb") as f:
+            f.write(data)
+        out.append((p, rate, [0, 1, 2]))
+
+    # step = 16.718 at 4000 Hz; tick = 80 samples; 6 ticks/row: the sample ends exactly when row 1 starts
+    put("reverse-past-end.it", it_module([dict(n=8010, c5spd=66904)], {0: [(1, 60, 1, None, 0)], 1: [(1, None, None, S, 0x9f)]}), 4000)
+    # the same geometry for every length around the boundary and a 16-bit sample
+    for k, n in enumerate([8008, 8009, 8011, 8024, 8025]):
+        put("reverse-edge-%d.it" % k, it_module([dict(n=n, c5spd=66904, b16=(k % 2 == 1))],
+                                                {0: [(1, 60, 1, None, 0)], 1: [(1, None, None, S, 0x9f)], 3: [(1, None, None, S, 0x9e)]}), 4000)
+    # ping-pong loops (short, at the sample edges), high step, direction flips by S9F/S9E on successive rows
+    bidi = [dict(n=64, c5spd=66904, flg=0x10 | 0x40, lps=0, lpe=64),
+            dict(n=200, c5spd=120000, flg=0x10 | 0x40, lps=198, lpe=200),
+            dict(n=33, c5spd=8363, flg=0x10, lps=0, lpe=1),
+            dict(n=1000, c5spd=40000, flg=0x20 | 0x80, sus=10, sue=13, b16=True),
+            dict(n=1000, c5spd=300000, flg=0x10 | 0x20 | 0x40, lps=900, lpe=1000, sus=0, sue=2)]
+    rows = {}
+    for i in range(5):
+        rows.setdefault(0, []).append((i + 1, 60 + 7 * i, i + 1, None, 0))
+        for r in range(1, 40):
+            if (r + i) % 3 == 0:
+                rows.setdefault(r, []).append((i + 1, None, None, S, 0x9f if (r // 3) % 2 == 0 else 0x9e))
+            elif (r + i) % 7 == 0:
+                rows.setdefault(r, []).append((i + 1, 255 if r % 2 else 254, None, None, 0))      # note off / cut
+            elif (r + i) % 5 == 0:
+                rows.setdefault(r, []).append((i + 1, None, None, 15, 0xff))                       # O offset past the end
+    put("pingpong.it", it_module(bidi, rows, speed=3), 4000)
+    put("pingpong-fast.it", it_module(bidi, rows, speed=1, tempo=255), 8000)
+    # sample offsets landing exactly on / just around the loop end and the sample end (libxmp_mixer_voicepos boundary)
+    offs = [dict(n=512, c5spd=8363, flg=0x10, lps=0, lpe=256), dict(n=512, c5spd=8363, flg=0x10 | 0x40, lps=128, lpe=256),
+            dict(n=256, c5spd=8363), dict(n=768, c5spd=8363, flg=0x20, sus=0, sue=256)]
+    orow = {}
+    for i in range(4):
+        for k, r in enumerate(range(0, 32, 2)):
+            orow.setdefault(r, []).append((i + 1, 60, i + 1, 15, [1, 0, 2, 1, 3, 0xff, 1, 1][k % 8]))
+            if k % 4 == 3:
+                orow.setdefault(r + 1, []).append((i + 1, None, None, S, 0x9f))
+    put("offset-at-end.it", it_module(offs, orow, speed=2), 22050)
+    # Protracker sample swap: looped -> looped -> one-shot -> empty, instrument numbers without notes
+    tri = bytes([0, 64, 127, 64, 0, 192, 129, 192] * 8)
+    smp = [(tri, 64, 0, 32), (bytes(reversed(tri)) * 2, 64, 8, 16), (tri * 4, 64, 0, 1), (b"", 0, 0, 1)]
+    mrows = {0: [(0, 214, 1, 0, 0), (1, 428, 2, 0, 0)], 4: [(0, 0, 2, 0, 0)], 8: [(0, 0, 3, 0, 0), (1, 0, 1, 0, 0)],
+             12: [(0, 0, 4, 0, 0)], 16: [(0, 0, 1, 0, 0), (1, 0, 31, 0, 0)], 20: [(0, 214, 3, 9, 0x01)], 24: [(0, 0, 2, 9, 0xff)],
+             28: [(0, 113, 2, 0xe, 0x91)]}
+    put("ptswap.mod", mod_module(smp, mrows), 11025)
+    return out
+
+
+# --------------------------------------------------------------------------
+# DigiBooster Pro (DBM0): IFF-style chunks, envelopes with sustain/loop points, per-instrument loops
+# --------------------------------------------------------------------------
+
+def dbm_chunk(cid, body):
+    return cid + struct.pack(">I", len(body)) + bytes(body)
+
+
+def dbm_envelope_chunk(envs):
+    """envs: list of (ins 1.., flags, sections, sus, lps, lpe, sus2, [(pos, val)] up to 32)"""
+    body = bytearray(struct.pack(">H", len(envs)))
+    for (ins, flg, nsec, sus, lps, lpe, sus2, pts) in envs:
+        body += struct.pack(">HBBBBBB", ins & 0xffff, flg & 0xff, nsec & 0xff, sus & 0xff, lps & 0xff, lpe & 0xff, sus2 & 0xff)
+        pts = list(pts)[:32] + [(0, 0)] * (32 - len(pts))
+        for (x, y) in pts:
+            body += struct.pack(">Hh", x & 0xffff, max(-32768, min(32767, y)))
+    return bytes(body)
+
+
+def dbm_module(chn, orders, patterns, insts, samples, venv=(), penv=(), order=("INFO", "SONG", "INST", "PATT", "SMPL", "VENV", "PENV"),
+               version=0x0205, title=b"synthetic dbm"):
+    """patterns: list of (rows, [(row, chan 1.., note byte or None, ins or None, fxt or None, fxp, f2t or None, f2p)]) ;
+    insts: list of (sample 1.., vol, c2spd, lps, looplen, pan, flags) ; samples: list of (flags, frames, data bytes)."""
+    chunks = {}
+    chunks["INFO"] = dbm_chunk(b"INFO", struct.pack(">HHHHH", len(insts), len(samples), 1, len(patterns), chn))
+    chunks["SONG"] = dbm_chunk(b"SONG", b"song".ljust(44, b"\0") + struct.pack(">H", len(orders)) +
+                               b"".join(struct.pack(">H", o & 0xffff) for o in orders))
+    body = bytearray()
+    for (snum, vol, c2spd, lps, lpl, pan, flags) in insts:
+        body += b"ins".ljust(30, b"\0") + struct.pack(">HHIIIhH", snum & 0xffff, vol & 0xffff, c2spd & 0xffffffff, lps & 0xffffffff,
+                                                       lpl & 0xffffffff, max(-32768, min(32767, pan)), flags & 0xffff)
+    chunks["INST"] = dbm_chunk(b"INST", body)
+    body = bytearray()
+    for (rows, cells) in patterns:
+        data = bytearray()
+        byrow = {}
+        for cell in cells:
+            byrow.setdefault(cell[0], []).append(cell)
+        for r in range(rows):
+            for (_, c, note, ins, fxt, fxp, f2t, f2p) in byrow.get(r, []):
+                mask = ((1 if note is not None else 0) | (2 if ins is not None else 0) | (4 | 8 if fxt is not None else 0)
+                        | (0x10 | 0x20 if f2t is not None else 0))
+                data += bytes([c & 0xff, mask])
+                if note is not None:
+                    data.append(note & 0xff)
+                if ins is not None:
+                    data.append(ins & 0xff)
+                if fxt is not None:
+                    data += bytes([fxt & 0xff, fxp & 0xff])
+                if f2t is not None:
+                    data += bytes([f2t & 0xff, f2p & 0xff])
+            data.append(0)
+        body += struct.pack(">HI", rows & 0xffff, len(data)) + data
+    chunks["PATT"] = dbm_chunk(b"PATT", body)
+    body = bytearray()
+    for (flags, frames, data) in samples:
+        body += struct.pack(">II", flags, frames & 0xffffffff) + data
+    chunks["SMPL"] = dbm_chunk(b"SMPL", body)
+    if venv:
+        chunks["VENV"] = dbm_chunk(b"VENV", dbm_envelope_chunk(venv))
+    if penv:
+        chunks["PENV"] = dbm_chunk(b"PENV", dbm_envelope_chunk(penv))
+    out = bytearray(b"DBM0" + struct.pack(">H", version) + b"\0\0" + b"NAME" + struct.pack(">I", 44) + title.ljust(44, b"\0"))
+    for cid in order:
+        if cid in chunks:
+            out += chunks[cid]
+    return bytes(out)
+
+
+def gen_dbm(rng):
+    chn = rng.choice([1, 2, 4, 8, 16, 64])
+    npat = rng.randint(1, 3)
+    nsmp = rng.randint(1, 3)
+    nins = rng.randint(1, 4)
+    ln = rng.randint(1, 8)
+    orders = [rng.choice([rng.randrange(npat), rng.randrange(npat), npat, 255, 0xffff]) for _ in range(ln)]
+    if all(o >= npat for o in orders):
+        orders[0] = 0
+    samples = []
+    for i in range(nsmp):
+        n = rng.choice([0, 1, 2, 4, 16, 64, 500, 3000])
+        b16 = rng.random() < 0.4
+        flags = (2 if b16 else 1) | (4 if rng.random() < 0.05 else 0)
+        samples.append((flags, n, bytes(rng.randrange(256) for _ in range(n * (2 if b16 else 1)))))
+    insts = []
+    for i in range(nins):
+        sn = rng.choice([0, 1, 1, nsmp, nsmp, nsmp + 1, 0xffff])
+        n = samples[min(max(sn, 1), nsmp) - 1][1]
+        lps = rng.choice([0, 0, 1, n // 2, n - 1, n, n + 1, 0x7fffffff, 0xffffffff])
+        lpl = rng.choice([0, 1, 2, n - lps if n > lps else 0, n, n + 1, 0x7fffffff, 0xffffffff])
+        insts.append((sn, rng.choice([64, 0, 65, 255, 0xffff]), rng.choice([8363, 0, 1, 100, 65535, 300000, 0xffffffff]), lps, lpl,
+                      rng.choice([0, -128, 127, 128, -32768, 32767]), rng.choice([0, 1, 2, 3, 1, 2])))
+    rows_of = [rng.choice([1, 2, 16, 64, 64, 100, 255, 256, 1000]) for _ in range(npat)]
+    patterns = []
+    for p in range(npat):
+        cells = []
+        for r in range(min(rows_of[p], 300)):
+            for c in range(1, min(chn, 6) + 1):
+                x = rng.random()
+                if x < 0.15:
+                    note = rng.choice([0x10, 0x30, 0x40, 0x4b, 0x7b, 0x1f, 0xff])
+                    fxt = rng.choice([0, 1, 2, 3, 4, 5, 6, 7, 8, 9, 0xa, 0xb, 0xc, 0xd, 0xe, 0xf, 0x10, 0x11, 0x14, 0x15, 0x18, 0x1b, 0x1c, 0x1d, 0x2f])
+                    fxp = bval(rng)
+                    if fxt == 0xe:
+                        fxp = (rng.choice([3, 3, 4, 5, 6, 0xc, 0xd, 0xe]) << 4) | rng.randrange(16)
+                    f2 = rng.random() < 0.3
+                    cells.append((r, c if rng.random() < 0.95 else chn + 1, note, rng.choice([0, 1, nins, nins + 1, 255]), fxt, fxp,
+                                  rng.choice([0xb, 0xd, 0xf, 0x1c, 9]) if f2 else None, bval(rng)))
+                elif x < 0.2:
+                    fxt = rng.choice([0xb, 0xd, 0xe, 0xf, 0x1c])
+                    fxp = bval(rng) if fxt != 0xe else (rng.choice([6, 0xe, 0xd, 0xc]) << 4) | rng.randrange(16)
+                    if fxt == 0xd and rng.random() < 0.5:
+                        t = max(0, min(99, rng.choice(rows_of) + rng.choice([-1, 0, 0, 1])))
+                        fxp = ((t // 10) << 4) | (t % 10)
+                    cells.append((r, c, None, None, fxt, fxp, None, 0))
+        patterns.append((rows_of[p], cells))
+
+    def env():
+        nsec = rng.choice([0, 1, 2, 5, 30, 31])
+        x = 0
+        pts = []
+        for _ in range(32):
+            x += rng.choice([0, 1, 4, 30, 300, 5000])
+            pts.append((x, rng.choice([0, 16, 32, 64, 65, 255, -1, -32768, 32767])))
+        b = [0, 1, nsec, nsec + 1 if nsec < 31 else 31, 31]
+        return (rng.choice([1, 1, nins]), rng.choice([1, 1, 3, 5, 7, 0]), nsec, rng.choice(b), rng.choice(b), rng.choice(b), rng.choice(b), pts)
+
+    venv = [env() for _ in range(rng.choice([0, 1, 2]))]
+    penv = [env() for _ in range(rng.choice([0, 0, 1]))]
+    order = ["INFO", "SONG", "INST", "PATT", "SMPL", "VENV", "PENV"]
+    if rng.random() < 0.5:
+        rest = order[1:]
+        rng.shuffle(rest)          # DBM readers take chunks in file order: any permutation after INFO is a legal file
+        order = ["INFO"] + rest
+    data = dbm_module(chn, orders, patterns, insts, samples, venv, penv, order, version=rng.choice([0x0205, 0x0220, 0x0300]))
+    if rng.random() < 0.1:
+        data = data[:rng.randrange(len(data) // 2, len(data))]
+    return data, "dbm"
+
+
+def gen_it_compressed(rng):
+    """IT module whose samples carry the IT2.14 compression flag over block-structured random bit streams that
+    are cut short (a decoder that ignores the error leaves the tail of its output buffer as it was allocated)."""
+    nsmp = rng.randint(1, 3)
+    samples = []
+    for i in range(nsmp):
+        n = rng.choice([1, 7, 64, 500, 3000, 0x8000, 0x8001, 70000])
+        b16 = rng.random() < 0.4
+        stereo = rng.random() < 0.2
+        blocks = bytearray()
+        for _ in range(rng.choice([0, 1, 1, 2, 3])):
+            ln = rng.choice([0, 1, 2, 16, 200, 2000, 0xffff])
+            body = bytes(rng.randrange(256) for _ in range(min(ln, rng.choice([ln, ln, ln // 2, 3]))))
+            blocks += struct.pack("<H", ln) + body
+        if rng.random() < 0.5 and len(blocks) > 2:
+            blocks = blocks[:rng.randrange(1, len(blocks))]
+        flg = 0x08 | (0x04 if stereo else 0) | rng.choice([0, 0x10, 0x50, 0x20])
+        samples.append(dict(n=n, c5spd=rng.choice([8363, 22050, 44100]), flg=flg, b16=b16, data=bytes(blocks),
+                            lps=rng.choice([0, n // 2]), lpe=rng.choice([n, n // 2, 0]), sus=0, sue=rng.choice([0, n])))
+    rows = {}
+    for r in range(0, 48, 4):
+        rows[r] = [(1 + (r // 4) % 4, rng.choice([36, 48, 60, 72]), 1 + rng.randrange(nsmp), None, 0)]
+    data = it_module(samples, rows, speed=rng.choice([1, 3, 6]), tempo=rng.choice([125, 255, 32]), title=b"compressed")
+    # the converter byte (offset 0x2e of each sample header): bit 2 = delta-coded stream (IT 2.15)
+    data = bytearray(data)
+    for k in range(nsmp):
+        o = 192 + 1 + 4 * nsmp + 4 + 80 * k + 0x2e
+        data[o] = rng.choice([1, 1 | 4, 0])
+    return bytes(data), "it"
+
+
+# --------------------------------------------------------------------------
+# OctaMED MMD0 / MMD1: offset-linked structures, sampled + synthetic instruments with volume / waveform
+# command tables (jumps, loops, waits), expansion data with per-instrument hold / decay / long loops
+# --------------------------------------------------------------------------
+
+MED_TABLE_CMDS = [0xff, 0xfe, 0xfb, 0xfa, 0xf6, 0xf5, 0xf4, 0xf3, 0xf2, 0xf1, 0xf0, 0xf7, 0xfc, 0xfd]
+
+
+def med_table(rng, n):
+    out = bytearray()
+    while len(out) < n:
+        x = rng.random()
+        if x < 0.45:
+            out.append(rng.choice([0, 1, 0x20, 0x3f, 0x40, 0x41, 0x7f]))          # volume / waveform number
+        elif x < 0.9:
+            c = rng.choice(MED_TABLE_CMDS)
+            out.append(c)
+            if c in (0xfe, 0xf0, 0xf1, 0xf2, 0xf3, 0xf4, 0xf5, 0xf6, 0xf7, 0xfc, 0xfd, 0xfa):
+                out.append(rng.choice([0, 1, len(out) & 0x7f, n & 0x7f, 0x7f, 0x80, 0xff]))   # argument (jump target, speed, ...)
+        else:
+            out.append(rng.randrange(256))
+    return bytes(out[:128]).ljust(128, b"\xff")
+
+
+def gen_mmd(rng):
+    ver = rng.choice([0, 1, 1])
+    ntrk = rng.choice([1, 2, 4, 4, 8, 16])
+    nblocks = rng.randint(1, 3)
+    nins = rng.randint(1, 4)
+    songlen = rng.randint(1, 8)
+    playseq = [rng.choice([rng.randrange(nblocks), rng.randrange(nblocks), nblocks, 255]) for _ in range(songlen)]
+    if all(p >= nblocks for p in playseq):
+        playseq[0] = 0
+    lines_of = [rng.choice([0, 1, 15, 63, 63, 99, 255] + ([256, 999, 3199] if ver else [])) for _ in range(nblocks)]
+
+    # ---- blocks -------------------------------------------------------------
+    blocks = []
+    fx_pool = [0, 1, 2, 3, 4, 5, 6, 7, 8, 9, 0xa, 0xb, 0xc, 0xd, 0xe, 0xf, 0x11, 0x12, 0x14, 0x15, 0x16, 0x18, 0x19, 0x1a, 0x1b,
+               0x1d, 0x1e, 0x1f, 0x20]
+    for b in range(nblocks):
+        lines = lines_of[b]
+        body = bytearray()
+        for r in range(lines + 1):
+            for t in range(ntrk):
+                x = rng.random()
+                note = ins = fx = prm = 0
+                if x < 0.15:
+                    note = rng.choice([1, 13, 25, 37, 49, 61, 0x7f] if ver else [1, 13, 25, 36, 0x3f])
+                    ins = rng.choice([0, 1, 1, nins, nins + 1, 31, 63])
+                    fx = rng.choice(fx_pool)
+                    prm = bval(rng)
+                elif x < 0.22:
+                    fx = rng.choice([0xb, 0xf, 0x9, 0x16, 0x1d, 0x1e, 0x1f, 0x19])
+                    prm = bval(rng)
+                    if fx == 0xf:
+                        prm = rng.choice([0, 1, 2, 0x0a, 0xf0, 0xf1, 0xf2, 0xf3, 0xf8, 0xf9, 0xfa, 0xfd, 0xfe, 0xff, 240, 241])
+                    if fx == 0x1d:
+                        prm = (rng.choice(lines_of) + rng.choice([-1, 0, 0, 1])) & 0xff
+                    if rng.random() < 0.2:
+                        ins = rng.choice([1, nins])         # instrument without note: MED hold / decay path
+                if ver:
+                    body += bytes([note & 0x7f, ins & 0x3f, fx & 0xff, prm])
+                else:
+                    fx &= 0x0f
+                    body += bytes([(note & 0x3f) | ((ins & 0x20) << 2) | ((ins & 0x10) << 2), ((ins & 0x0f) << 4) | fx, prm])
+        if ver:
+            blocks.append(struct.pack(">HHI", ntrk if rng.random() < 0.9 else rng.choice([1, ntrk]), lines, 0) + body)
+        else:
+            blocks.append(bytes([ntrk, lines & 0xff]) + body)
+
+    # ---- instruments ----------------------------------------------------------
+    instrs, song_samples, exps = [], [], []
+    for i in range(nins):
+        kind = rng.choice(["smp", "smp", "synth", "hybrid", "none", "ext16"])
+        rep = replen = 0
+        if kind in ("smp", "ext16"):
+            n = rng.choice([0, 2, 4, 16, 64, 400, 3000])
+            b16 = kind == "ext16"
+            data = bytes(rng.randrange(256) for _ in range(n))
+            typ = (0x10 if b16 else 0) | rng.choice([0, 0, 0, 7, 0x20])
+            instrs.append(struct.pack(">Ih", n if rng.random() < 0.9 else rng.choice([n + 2, 0x7fffffff]), typ) + data)
+            rep = rng.choice([0, 0, 1, n // 4, n // 2, n, 0xffff])
+            replen = rng.choice([0, 1, 2, (n // 2 - rep) & 0xffff, n // 2, 0xffff])
+        elif kind in ("synth", "hybrid"):
+            nw = rng.choice([1, 1, 2, 4, 64])
+            hdr = bytearray(bytes([rng.choice([0, 1, 0xff])]) + b"\0\0\0")
+            hdr += struct.pack(">HHHHBBH", rng.choice([0, 1, 100]), rng.choice([0, 1, 100]), rng.choice([0, 1, 16, 127, 128]),
+                               rng.choice([0, 1, 16, 127, 128]), rng.choice([0, 1, 6, 255]), rng.choice([0, 1, 6, 255]), nw)
+            hdr += med_table(rng, 128) + med_table(rng, 128)
+            base = 6 + len(hdr) + 4 * nw
+            wfs, offs = bytearray(), []
+            for w in range(nw):
+                offs.append(base + len(wfs))
+                if kind == "hybrid" and w == 0:
+                    n = rng.choice([2, 64, 1000])
+                    wfs += struct.pack(">Ih", n, 0) + bytes(rng.randrange(256) for _ in range(n))
+                else:
+                    words = rng.choice([0, 1, 8, 16, 64, 128])
+                    wfs += struct.pack(">H", words) + bytes(rng.randrange(256) for _ in range(2 * words))
+            if rng.random() < 0.1:
+                offs[-1] = rng.choice([0, 6, 0x7fffffff, len(hdr) + len(wfs) + 100])
+            body = bytes(hdr) + b"".join(struct.pack(">I", o & 0xffffffff) for o in offs) + bytes(wfs)
+            instrs.append(struct.pack(">Ih", len(body), -2 if kind == "hybrid" else -1) + body)
+            rep = rng.choice([0, 1, 16])
+            replen = rng.choice([0, 1, 16, 0xffff])
+        else:
+            instrs.append(None)
+        song_samples.append(struct.pack(">HHBBBb", rep & 0xffff, replen & 0xffff, 0, 0, rng.choice([64, 0, 65, 255]),
+                                        rng.choice([0, 12, -12, 127, -128])))
+        exps.append(bytes([rng.choice([0, 1, 6, 127, 255]), rng.choice([0, 1, 10, 255]), 0, rng.choice([0, 7, 8, 0xf8, 0xff, 0x7f])]))
+
+    # ---- assemble with offsets ---------------------------------------------------
+    flags = rng.choice([0, 0x20, 0x40, 0x10, 0x60]) | rng.choice([0, 0, 0x80])
+    flags2 = rng.choice([0, 0x20, 0x23, 0x3f, 0x20 | 7])
+    song = bytearray(b"".join(song_samples).ljust(504, b"\0"))
+    song += struct.pack(">HH", nblocks, songlen) + bytes(playseq).ljust(256, b"\0")
+    song += struct.pack(">HbBBB", rng.choice([125, 33, 1, 0, 10, 240, 255, 0xffff]), rng.choice([0, 12, -12, 100, -128]), flags, flags2,
+                        rng.choice([6, 1, 0, 32, 255]))
+    song += bytes(rng.choice([64, 0, 65, 255]) for _ in range(16)) + bytes([rng.choice([64, 0, 255]), nins])
+    off = 52
+    song_off = off
+    off += len(song)
+    blockarr_off = off
+    off += 4 * nblocks
+    smplarr_off = off
+    off += 4 * nins
+    block_offs = []
+    for b in blocks:
+        block_offs.append(off)
+        off += len(b)
+    ins_offs = []
+    for ins in instrs:
+        if ins is None:
+            ins_offs.append(0)
+        else:
+            ins_offs.append(off)
+            off += len(ins)
+            off += off & 1
+    use_exp = rng.random() < 0.7
+    exp_off = off if use_exp else 0
+    expblob = b""
+    if use_exp:
+        esz = rng.choice([4, 4, 8, 10, 18])
+        entries = rng.choice([nins, nins, nins - 1, nins + 3, 0])
+        name = b"synthetic med"
+        anno = b"annotation" if rng.random() < 0.3 else b""
+        expsmp_off = off + 84
+        expsmp = bytearray()
+        for k in range(max(0, entries)):
+            e = exps[k % nins] if nins else b"\0\0\0\0"
+            ext = bytes([rng.choice([0, 1, 60, 84, 255]), rng.choice([0, 1, 2, 0x10, 0xff]), 0, 0, 0, 0]) + \
+                struct.pack(">II", rng.choice([0, 1, 100, 0x7fffffff, 0xffffffff]), rng.choice([0, 2, 100, 0x7fffffff, 0xffffffff]))
+            expsmp += (e + ext)[:esz]
+        iinfo_off = expsmp_off + len(expsmp)
+        iinfo = b"".join(b"instrument".ljust(40, b"\0") for _ in range(nins))
+        name_off = iinfo_off + len(iinfo)
+        anno_off = name_off + len(name)
+        expblob = struct.pack(">IIHHIIIHH", 0, expsmp_off, entries & 0xffff, esz, anno_off if anno else 0, len(anno), iinfo_off, nins, 40)
+        expblob += bytes(16) + struct.pack(">II", name_off, rng.choice([len(name), len(name), 0, 63, 64, 0x7fffffff]))
+        expblob = expblob.ljust(84, b"\0") + bytes(expsmp) + iinfo + name + anno
+    out = bytearray(b"MMD1" if ver else b"MMD0")
+    total = off + len(expblob)
+    out += struct.pack(">IIHHIIIIII", total, song_off, 0, 0, blockarr_off, 0, smplarr_off, 0, exp_off, 0)
+    out += struct.pack(">HHHHHBB", 0, 0, 0, 0, 0, 6, 0)
+    assert len(out) == 52
+    out += song
+    if rng.random() < 0.08:
+        block_offs[rng.randrange(nblocks)] = rng.choice([0, 4, total + 10, 0x7fffffff])
+    out += b"".join(struct.pack(">I", o) for o in block_offs) + b"".join(struct.pack(">I", o) for o in ins_offs)
+    for b in blocks:
+        out += b
+    for ins in instrs:
+        if ins is not None:
+            out += ins
+            if len(out) & 1:
+                out += b"\0"
+    out += expblob
+    if rng.random() < 0.1:
+        out = out[:rng.randrange(len(out) // 2, len(out))]
+    return bytes(out), "med"
+
+
 GENS = [gen_mod, gen_xm, gen_xm, gen_s3m, gen_it, gen_it]
+# generators added for C01 only (C02 keeps using GENS through write_set)
+GENS_C01_EXTRA = [gen_dbm, gen_it_compressed, gen_mmd, gen_dbm, gen_mmd, gen_it_compressed]
+
+
+def write_set_extra(rng, dirname, count, gens=None, prefix="syx"):
+    """Like write_set, for the generators in GENS_C01_EXTRA."""
+    import os
+    gens = gens or GENS_C01_EXTRA
+    os.makedirs(dirname, exist_ok=True)
+    paths = []
+    for i in range(count):
+        g = gens[i % len(gens)]
+        try:
+            data, ext = g(rng)
+        except Exception:
+            continue
+        p = os.path.join(dirname, "%s%04d.%s" % (prefix, i, ext))
+        with open(p, "wb") as f:
+            f.write(data)
+        paths.append(p)
+    return paths
 
 
 def write_set(rng, dirname, count, prefix="syn"):
